@@ -43,6 +43,13 @@ type RoundTripper struct {
 }
 
 func (rt *RoundTripper) RoundTrip(req *http.Request) (*http.Response, error) {
+	// A stored response to a POST (or any other unsafe) request can only be used to answer subsequent
+	// GET or HEAD requests (RFC 7231, section 4.3.3), which is not supported. If it were used to answer
+	// another POST request, a request would be answered with the response to a different body.
+	if req.Method != http.MethodGet && req.Method != http.MethodHead {
+		return rt.Transport.RoundTrip(req)
+	}
+
 	resp, err := rt.cachedResponse(req)
 	if err == nil {
 		return resp, nil
